@@ -57,14 +57,14 @@ def codec_runs(prefix, suffix="", quick=None, thorough=None, extra_entries=None,
     return runs
 
 PROPS["C03"] = {
-    "level_text": "Round trip decode(encode(frame)) == frame on the real encoder+decoder pairs of H264, H265, AV1, VP8, VP9, fragmented (MPEG-4 video/LATM), KLV, MPEG-1 video (1-2 slices), MPEG-4 audio (SizeLength/IndexLength/IndexDeltaLength (13,3,3), (6,2,2) and the unequal (6,0,2), (6,2,0)), MPEG-1 audio and AC-3 (frame lengths fixed by the real header parsers; fragmented, single and aggregated regimes), LPCM, simple audio, MPEG-TS: frame contents fully symbolic, unit lengths symbolic 1..P (P 8-16; audio frames 48-140 bytes), 1-3 units (6 for the AU-header layouts), payload limit case-split over its whole small range, initial sequence number symbolic (wrap inside a frame included), K=1 (quick) / 2 (thorough) consecutive frames; 'more packets needed' before the completing packet and exact equality at it.",
-    "level_note": 'Preconditions (valid frames) are written in the harnesses and listed in the evidence (e.g. no start code inside NALUs, VP9 header parsable, audio header accepted by the codec library with the declared length). Outside: the default MTU 1450 for the round trip (only the small-limit regime; thresholds are relative to the limit so every aggregation/fragmentation boundary is crossed; C06 covers sizes at the default limit), M-JPEG, P/N/K beyond the registered values.',
+    "level_text": "Round trip decode(encode(frame)) == frame on the real encoder+decoder pairs of H264, H265, AV1, VP8, VP9, fragmented (MPEG-4 video/LATM), KLV, MPEG-1 video (1-2 slices), MPEG-4 audio (SizeLength/IndexLength/IndexDeltaLength (13,3,3), (6,2,2) and the unequal (6,0,2), (6,2,0)), MPEG-1 audio and AC-3 (frame lengths fixed by the real header parsers; fragmented, single and aggregated regimes), M-JPEG (baseline JPEG with symbolic tables in any two of the slots 0..3, dimensions, sampling type and entropy data; the rebuilt image has the same dimensions, type, tables and data), LPCM, simple audio, MPEG-TS: frame contents fully symbolic, unit lengths symbolic 1..P (P 8-16; audio frames 48-140 bytes), 1-3 units (6 for the AU-header layouts), payload limit case-split over its whole small range, initial sequence number symbolic (wrap inside a frame included), K=1 (quick) / 2 (thorough) consecutive frames; 'more packets needed' before the completing packet and exact equality at it.",
+    "level_note": 'Preconditions (valid frames) are written in the harnesses and listed in the evidence (e.g. no start code inside NALUs, VP9 header parsable, audio header accepted by the codec library with the declared length). Outside: the default MTU 1450 for the round trip (only the small-limit regime; thresholds are relative to the limit so every aggregation/fragmentation boundary is crossed; C06 covers sizes at the default limit), M-JPEG restart intervals and more than two tables, P/N/K beyond the registered values.',
     "runs": codec_runs("ZzC03", quick={"*": {"K": 1}, "rtpav1": {"K": 1, "N": 3, "P": 8}},
                        thorough={"*": {"K": 2, "P": 7, "MHI": 7}, "rtpav1": {"K": 1, "N": 3, "P": 10}, "rtpvp9": {"K": 2, "P": 14, "MHI": 14}, "rtpklv": {"K": 2, "P": 22, "MHI": 12}}),
 }
 PROPS["C06"] = {
     "level_text": 'For every encoder listed under C03: payload <= PayloadMaxSize (limit symbolic over its small range), sequence numbers +1 modulo 2^16 from a symbolic initial value across K calls (so wraps inside a fragmented frame are covered), SSRC/payload type/version, marker placement, inputs never written (engine write monitor + native copy compare). In addition, for H264, H265, AV1, VP8, VP9 and fragmented: the DEFAULT limit (PayloadMaxSize unset => 1450) with 1..3 units of 1..4500 bytes carried by length-only buffers (lengths symbolic and exact), so every single/aggregated/fragmented threshold around the real default is crossed.',
-    "level_note": 'Same bounds and exclusions as C03; smallest workable limits are per codec (H264 3, H265 4, AV1 3, VP8 2, VP9 12) and stated as MLO in the bounds. Outside: M-JPEG; default-limit instances for the audio / KLV / MPEG-1 video encoders (their packetisation depends on frame contents).',
+    "level_note": 'Same bounds and exclusions as C03; smallest workable limits are per codec (H264 3, H265 4, AV1 3, VP8 2, VP9 12) and stated as MLO in the bounds. Outside: default-limit instances for the audio / KLV / MPEG-1 video encoders (their packetisation depends on frame contents).',
     "runs": codec_runs("ZzC06", quick={"*": {"K": 1}}, thorough={"*": {"K": 2, "P": 7, "MHI": 7}, "rtpvp9": {"K": 2, "P": 14, "MHI": 14}}),
 }
 _M4A = [
@@ -105,6 +105,10 @@ _AUD = [
 ]
 _M1V_Q = {"K": 1, "N": 2, "P": 8, "MLO": 6, "MHI": 9}
 _M1V_T = {"K": 2, "N": 2, "P": 8, "MLO": 6, "MHI": 13}
+_MJ = [R("mjpeg", "pkg/format/rtpmjpeg", "pkg/format/rtpmjpeg", ["ZzC03C06MJPEG"], quick_params={"K": 1, "P": 8, "MLO": 142, "MHI": 146, "NSLOTS": 6},
+         thorough_params={"K": 2, "P": 8, "MLO": 142, "MHI": 150, "NSLOTS": 6})]
+PROPS["C03"]["runs"] += _MJ
+PROPS["C06"]["runs"] += _MJ
 PROPS["C03"]["runs"] += _M4A + _MISC + _AUD + [
     R("mpeg1video", "pkg/format/rtpmpeg1video", "pkg/format/rtpmpeg1video", ["ZzC03MPEG1Video"], quick_params=_M1V_Q, thorough_params=_M1V_T)]
 PROPS["C06"]["runs"] += [
@@ -115,8 +119,8 @@ PROPS["C06"]["runs"] += [
 PROPS["C06"]["runs"] += _M4A + _MISC + _AUD + [
     R("mpeg1video", "pkg/format/rtpmpeg1video", "pkg/format/rtpmpeg1video", ["ZzC06MPEG1Video"], quick_params=_M1V_Q, thorough_params=_M1V_T)]
 PROPS["C07"] = {
-    "level_text": "Inductive resynchronisation: from an ARBITRARY decoder pre-state (all internal fields symbolic within a small shape, constrained only by the accounting invariant; for H264/H265/AV1 also with the number of buffered units at or just below the documented maximum, as left by lost marker packets) an intact frame A then an intact frame B are fed; B must come back intact exactly once at its completing packet (H264: no later than the first packet of the following frame) with only 'more packets needed' before, and the invariant must be re-established. Any loss/duplication/reordering history leaves the decoder in some such state, so one verdict covers fault sequences of every length. H264, H265, AV1, VP8, VP9, fragmented, KLV, MPEG-1 video, MPEG-1 audio, AC-3, MPEG-4 audio.",
-    "level_note": "Trusted: the representation invariant of each decoder (Appendix A of DESIGN.md); pre-state shapes are small (<=2 pending fragments of <=3 bytes, <=1 buffered unit or a near-maximum count of one-byte units). These harnesses name unexported fields: after a refactoring of a decoder's internals they are inconclusive (exit 2) and only the public-API checks of C03/C08 remain. Outside: M-JPEG; explicit drop/dup/swap enumeration (covered through the inductive state).",
+    "level_text": "Inductive resynchronisation: from an ARBITRARY decoder pre-state (all internal fields symbolic within a small shape, constrained only by the accounting invariant; for H264/H265/AV1 also with the number of buffered units at or just below the documented maximum, as left by lost marker packets) an intact frame A then an intact frame B are fed; B must come back intact exactly once at its completing packet (H264: no later than the first packet of the following frame) with only 'more packets needed' before, and the invariant must be re-established. Any loss/duplication/reordering history leaves the decoder in some such state, so one verdict covers fault sequences of every length. H264, H265, AV1, VP8, VP9, fragmented, KLV, MPEG-1 video, MPEG-1 audio, AC-3, MPEG-4 audio, M-JPEG.",
+    "level_note": "Trusted: the representation invariant of each decoder (Appendix A of DESIGN.md); pre-state shapes are small (<=2 pending fragments of <=3 bytes, <=1 buffered unit or a near-maximum count of one-byte units). These harnesses name unexported fields: after a refactoring of a decoder's internals they are inconclusive (exit 2) and only the public-API checks of C03/C08 remain. Outside: explicit drop/dup/swap enumeration (covered through the inductive state).",
     "runs": codec_runs("ZzC07", state=True, quick={"*": {"P": 5}, "rtpvp9": {"P": 14, "MHI": 13}, "rtpklv": {"P": 20, "MHI": 18}}, thorough={"*": {}}),
 }
 for _r in PROPS["C07"]["runs"]:
@@ -127,6 +131,7 @@ PROPS["C07"]["runs"] += [
       quick_params={"P": 3}, thorough_params={"P": 5})
     for c in ("h264", "h265", "av1")
 ] + [
+    R("mjpeg", "pkg/format/rtpmjpeg", "pkg/format/rtpmjpeg", ["ZzC07MJPEG"], extras=ST("rtpmjpeg"), quick_params={"P": 6, "NSLOTS": 2}, thorough_params={"P": 8, "NSLOTS": 6}),
     R("mpeg1video", "pkg/format/rtpmpeg1video", "pkg/format/rtpmpeg1video", ["ZzC07MPEG1Video"], extras=ST("rtpmpeg1video"), quick_params={"N": 1, "P": 8, "MLO": 5, "MHI": 8}, thorough_params={"N": 1, "P": 10, "MLO": 5, "MHI": 12}),
     R("mpeg1audio", "pkg/format/rtpmpeg1audio", "pkg/format/rtpmpeg1audio", ["ZzC07MPEG1Audio"], extras=ST("rtpmpeg1audio"), params={"N": 1, "P": 53, "MLO": 30, "MHI": 31, "COV1": 0},
       thorough_params={"MLO": 28, "MHI": 33}),
@@ -135,7 +140,7 @@ PROPS["C07"]["runs"] += [
       quick_params={"P": 5, "MHI": 8}, thorough_params={"P": 6, "MHI": 10}),
 ]
 PROPS["C08"] = {
-    "level_text": 'Hostile packets: K arbitrary packets (payload 0..P fully symbolic, any header) from Init through the real decoders: no panic, no loop beyond the unwinding bound, returned frames within the documented maximum, returned buffers never written by later calls (write monitor + native compare), accounting invariant after every call - all 15 decoders (MPEG-4 audio over the SizeLength/IndexLength values the SDP layer admits) plus the PTSEqualsDTS helpers; one inductive step at the REAL size caps with length-only buffers (VP8, VP9, AV1, fragmented, KLV, MPEG-1 video), whose reads are memoised so that counterexamples replay natively; unit-COUNT cap for H264/H265: an aggregation packet with a unit count around the documented maximum on the marker path and on the timestamp-split path.',
+    "level_text": 'Hostile packets: K arbitrary packets (payload 0..P fully symbolic, any header) from Init through the real decoders: no panic, no loop beyond the unwinding bound, returned frames within the documented maximum, returned buffers never written by later calls (write monitor + native compare), accounting invariant after every call - all 15 decoders (MPEG-4 audio over the SizeLength/IndexLength values the SDP layer admits) plus the PTSEqualsDTS helpers; one inductive step at the REAL size caps with length-only buffers (VP8, VP9, AV1, fragmented, KLV, MPEG-1 video), whose reads are memoised so that counterexamples replay natively; retained bytes of the M-JPEG decoder after any number of completed images with different headers (engine primitive zzRetained: lengths of all byte slices reachable from the decoder, maps included) stay within the tables of one image; unit-COUNT cap for H264/H265: an aggregation packet with a unit count around the documented maximum on the marker path and on the timestamp-split path.',
     "level_note": 'Outside: inductive size-cap step for H264/H265 (solver timeouts on length-only data, dropped rather than weakened); M-JPEG beyond K=2, P=14; heap measured as reachable slice lengths.',
     "runs": codec_runs("ZzC08", "Hist", state=True, quick={"*": {}, "rtpvp9": {"K": 2, "P": 5}, "rtpav1": {"K": 2, "P": 7}}, thorough={"*": {"K": 3}, "rtpvp9": {"K": 2, "P": 8}, "rtpav1": {"K": 2, "P": 9}},
                        extra_entries={"rtpklv": ["ZzC08KLVInd"], "rtpfragmented": ["ZzC08FragmentedInd"], "rtpvp8": ["ZzC08VP8Ind"],
@@ -187,6 +192,7 @@ PROPS["C08"]["runs"] += [
     R("h265-count", "pkg/format/rtph265", "pkg/format/rtph265", ["ZzC08H265Count"]),
     R("mpeg1audio-hostile", "pkg/format/rtpmpeg1audio", "pkg/format/rtpmpeg1audio", ["ZzC08MPEG1AudioHist"], extras=ST("rtpmpeg1audio"), quick_params={"K": 1, "P": 60}, thorough_params={"K": 2, "P": 60}),
     R("ac3-hostile", "pkg/format/rtpac3", "pkg/format/rtpac3", ["ZzC08AC3Hist"], extras=ST("rtpac3"), quick_params={"K": 1, "P": 136}, thorough_params={"K": 2, "P": 136}),
+    R("mjpeg-retained", "pkg/format/rtpmjpeg", "pkg/format/rtpmjpeg", ["ZzC08MJPEGRetained"], extras=ST("rtpmjpeg"), quick_params={"K": 3}, thorough_params={"K": 6}),
     R("mjpeg-hostile", "pkg/format/rtpmjpeg", "pkg/format/rtpmjpeg", ["ZzC08MJPEGHist"], extras=ST("rtpmjpeg"), quick_params={"K": 1, "P": 14}, thorough_params={"K": 2, "P": 14}),
     R("ptsequalsdts", "pkg/format", "pkg/format", ["ZzC08PTSEqualsDTS"], quick_params={"P": 12}, thorough_params={"P": 24}),
     R("lpcm-hostile", "pkg/format/rtplpcm", "pkg/format/rtplpcm", ["ZzC08LPCM"]),
